@@ -61,8 +61,40 @@ func calleeName(c *ssa.CallCommon) string {
 }
 
 type pathCtx struct {
-	depth int
-	phis  map[*ssa.Phi]bool
+	depth   int
+	phis    map[*ssa.Phi]bool
+	getters bool                 // print a call of a trivial accessor as the expression it returns (pathOfX)
+	subst   map[ssa.Value]string // parameters of the accessor being expanded -> argument paths
+}
+
+// pathOfX is pathOf with calls of trivial accessors (one block, no effects, `return <expression over the parameters>`)
+// replaced by the expression they return: `j.length()` prints as `call:len(j.entries)`. Used as a second spelling when a
+// pattern written against a field access does not match code that reads the field through its getter.
+func pathOfX(v ssa.Value) string {
+	return normPath((&pathCtx{phis: map[*ssa.Phi]bool{}, getters: true}).path(v))
+}
+
+// trivialGetter: the single returned value of a function whose only block computes it without calls (other than len/cap),
+// stores or allocations.
+func trivialGetter(f *ssa.Function) ssa.Value {
+	if f == nil || len(f.Blocks) != 1 || f.Signature.Results().Len() != 1 {
+		return nil
+	}
+	var ret ssa.Value
+	for _, in := range f.Blocks[0].Instrs {
+		switch x := in.(type) {
+		case *ssa.FieldAddr, *ssa.Field, *ssa.UnOp, *ssa.BinOp, *ssa.IndexAddr, *ssa.Index, *ssa.Convert, *ssa.ChangeType, *ssa.DebugRef, *ssa.Slice, *ssa.Lookup:
+		case *ssa.Call:
+			if b, ok := x.Call.Value.(*ssa.Builtin); !ok || (b.Name() != "len" && b.Name() != "cap") {
+				return nil
+			}
+		case *ssa.Return:
+			ret = x.Results[0]
+		default:
+			return nil
+		}
+	}
+	return ret
 }
 
 func pathOf(v ssa.Value) string {
@@ -88,6 +120,9 @@ func (c *pathCtx) path(v ssa.Value) string {
 	defer func() { c.depth-- }()
 	if c.depth > 14 {
 		return "…"
+	}
+	if s, ok := c.subst[v]; ok {
+		return s
 	}
 	switch x := v.(type) {
 	case *ssa.Parameter:
@@ -169,6 +204,18 @@ func (c *pathCtx) path(v ssa.Value) string {
 	case *ssa.Extract:
 		return c.path(x.Tuple) + fmt.Sprintf("#%d", x.Index)
 	case *ssa.Call:
+		if c.getters {
+			if f := x.Call.StaticCallee(); f != nil && len(f.Params) == len(x.Call.Args) {
+				if r := trivialGetter(f); r != nil {
+					sub := map[ssa.Value]string{}
+					for i, p := range f.Params {
+						sub[p] = c.path(x.Call.Args[i])
+					}
+					inner := &pathCtx{depth: c.depth, phis: c.phis, getters: true, subst: sub}
+					return inner.path(r)
+				}
+			}
+		}
 		return "call:" + c.callStr(&x.Call)
 	case *ssa.ChangeType:
 		return c.path(x.X)
